@@ -221,6 +221,9 @@ func genCase(t *rapid.T) Case {
 		c.Update = p + " += [" + val + "]"
 	case "create_key":
 		c.Update = p + `.["zz_new"] = ` + val
+		if rapid.IntRange(0, 2).Draw(t, "ckplus") == 0 {
+			c.Update = p + ` += {"zz_new": ` + val + "}" // the same through the sum of two maps
+		}
 	case "relative":
 		// the relative update in its two spellings: `|= . op v` and the compound `op= v`
 		compound := rapid.Bool().Draw(t, "compound")
